@@ -412,8 +412,11 @@ class rewrite_goal_macro(Macro):
         assert isinstance(args, tuple) and len(args) == 2 and \
                isinstance(args[0], str) and isinstance(args[1], Term), "rewrite_goal: signature"
 
-        # Simply produce the goal
+        # Produce the goal, after making sure the rewriting does lead
+        # from the goal to the first premise.
         _, goal = args
+        th = self.get_proof_term(args, [ProofTerm.sorry(th) for th in ths]).th
+        assert th.prop == goal, "rewrite_goal: the goal does not rewrite to the given fact"
         return Thm(goal, *(th.hyps for th in ths))
 
     def get_proof_term(self, args, pts):
